@@ -7,6 +7,8 @@ skips the realloc and writes past the block."""
 from prog import *
 import extent
 
+PAIRS = set()     # (record, array field, capacity field) discovered by run(): consumed by reset_with_array()
+
 
 def run(chk, P, units=None, rule="R-CAPFIELD"):
     n = 0
@@ -19,6 +21,7 @@ def run(chk, P, units=None, rule="R-CAPFIELD"):
         allocs = {}   # owner key -> [(field, signature, loc, text)]
         caps = {}     # owner key -> [(field, signature, loc, text)]
         localalloc = {}   # local var -> (sig, loc, text)
+        recs = {}
         for x in f.walk():
             tgt = rhs = None
             a = assigned(x)
@@ -44,15 +47,18 @@ def run(chk, P, units=None, rule="R-CAPFIELD"):
                 sig = extent.signature(ext, defs)
                 if tgt["k"] == "Member":
                     allocs.setdefault(lv(tgt["c"][0]), []).append((tgt["f"], sig, f.loc(x), src(strip(ext))))
+                    recs[(lv(tgt["c"][0]), tgt["f"])] = tgt.get("rec")
                 elif tgt["k"] == "Ref":
                     localalloc[tgt["n"]] = (sig, f.loc(x), src(strip(ext)))
                 continue
             if tgt["k"] == "Member" and "allocated" in tgt["f"]:
+                recs[(lv(tgt["c"][0]), tgt["f"])] = tgt.get("rec")
                 caps.setdefault(lv(tgt["c"][0]), []).append((tgt["f"], extent.signature(rhs, defs), f.loc(x), src(rhs)))
             # X->A = local  where local was allocated above
             if tgt["k"] == "Member" and rhs["k"] == "Ref" and rhs["n"] in localalloc:
                 sig, loc, txt = localalloc[rhs["n"]]
                 allocs.setdefault(lv(tgt["c"][0]), []).append((tgt["f"], sig, loc, txt))
+                recs[(lv(tgt["c"][0]), tgt["f"])] = tgt.get("rec")
         for owner, cl in caps.items():
             al = allocs.get(owner)
             if not al:
@@ -64,6 +70,8 @@ def run(chk, P, units=None, rule="R-CAPFIELD"):
                 cand = al if len(al) == 1 else [z for z in al if z[0].replace("nr_", "").rstrip("s") in cf or cf.replace("_allocated", "").replace("nr_", "") in z[0]] or al[:1]
                 for (af, asig, aloc, atxt) in cand[:1]:
                     n += 1
+                    if recs.get((owner, af)) and recs.get((owner, af)) == recs.get((owner, cf)):
+                        PAIRS.add((recs[(owner, af)], af, cf))
                     same = asig == csig or asig == (cf,)        # allocated from the capacity field itself
                     chk.inst(rule, f, "%s->%s/%s" % (owner, af, cf), same,
                              "%s->%s is allocated for %s elements (%s) and %s->%s records %s%s" % (owner, af, "*".join(asig) or "1", aloc, owner, cf, ctxt, "" if same else ": the recorded capacity is not the allocated one"), loc=cloc)
@@ -98,4 +106,53 @@ def run(chk, P, units=None, rule="R-CAPFIELD"):
                                  % (akey, ckey, "" if not bad else " -- but the exit at %s does: the next append trusts the capacity and writes through NULL" % bad[0]), loc=cloc)
                     except AnalysisBroken:
                         pass
+    return n
+
+
+def reset_with_array(chk, P, units=None, rule="R-CAPFIELD", records=("hwloc_topology",)):
+    """third clause: a function that leaves an array field NULL (it released the array: destroy / clear paths) also leaves the paired
+    capacity field 0 -- otherwise the next append, which compares the count with the recorded capacity, skips the allocation and
+    writes through NULL.  Pairs (record, array, capacity) are the ones discovered at the allocation sites by run().
+    Must-fact dataflow: at every exit where `X->A` was last assigned NULL on every path, `X->C` was last assigned 0 on every path."""
+    import must
+    n = 0
+    for f in P.all_funcs():
+        if units is not None and os.path.basename(f.file) not in units:
+            continue
+        if f.entry is None:
+            continue
+        sites = []
+        for x in f.walk():
+            a = assigned(x)
+            if a and a[1] == "=" and a[2] is not None and cval(strip(a[2])) == 0:
+                t = strip(a[0])
+                if t["k"] == "Member":
+                    for (rec, af, cf) in PAIRS:
+                        # only records that outlive the release and are used again without being re-initialised: the topology itself
+                        # (hwloc_topology_clear() + a second load); an infos block of an object that is about to be freed is not reused
+                        if rec in records and t.get("rec") == rec and t["f"] == af and lv(t["c"][0]):
+                            sites.append((x, lv(t["c"][0]), af, cf))
+        if not sites:
+            continue
+        m = must.Must(f).run()
+        exits = [r for r in returns(f)]
+        states = [m.before.get(r["id"]) for r in exits if m.before.get(r["id"]) is not None]
+        if f.exit in m.inb and not exits:
+            states.append(m.inb[f.exit])
+        done = set()
+        for (x, owner, af, cf) in sites:
+            if (owner, af) in done:
+                continue
+            done.add((owner, af))
+            akey, ckey = "%s->%s" % (owner, af), "%s->%s" % (owner, cf)
+            bad = None
+            for st in states:
+                null_here = any(fc[0] == "asg" and fc[1] == akey and fc[2] in ("0", "NULL", "((void *)0)") for fc in st)
+                zero_cap = any(fc[0] == "asg" and fc[1] == ckey and fc[2] == "0" for fc in st)
+                if null_here and not zero_cap:
+                    bad = True
+            n += 1
+            chk.inst(rule, f, "%s/%s:reset-together" % (akey, cf), not bad,
+                     "%s is left NULL by this function: %s is left 0 as well%s" % (akey, ckey, "" if not bad else
+                     " -- but an exit is reached with the array NULL and the recorded capacity untouched: after the next initialisation-free reuse, an append trusts the capacity and writes through NULL"), loc=f.loc(x))
     return n
